@@ -26,6 +26,17 @@ CLAIMS = {
              note="SHA-1 abstract; hashlib streaming validated per case",
              technique="Coq proof (telescoping induction) over generated update slices + oracle sha1(source)"),
 }
+CLAIMS.update({
+ 'C08': dict(text="Coq theorems over a model of the irregular route (arithmetic GENERATED from InferredGeometry3d.get_range, unstructured_io_thread_func, make_header, the mask expressions): inferred axes are the true grid when every line carries a trace; every buffer cell holds the trace with those line numbers or zero; the i-th populated grid position (population mask from the stored inline array) is source trace i, so trace i / header i are the i-th source trace / header; tracefield grids have zeros at holes. Partial: D20 (inline number 0) and D27 (segyio takes some irregular surveys as regular) are known findings with boolean guards and refuted-witness theorems; bitwise equality of volume reads with the codec image is oracle + C01/C02.",
+             note="segyio geometry inference is a hand model compared with segyio on every sample; codec abstract",
+             technique="Coq proof (list induction, strictly increasing ordinal maps) over generated index arithmetic + oracle against segyio source"),
+ 'C09': dict(text="Coq theorems for every well-formed 2D header: read_subplane and get_trace (fast and general path) as GENERATED return exactly the specification decoder's cells and issue exactly the intersected blocks; the GENERATED 2D producer writes, at unit_index2 (xu,zu), the code of that unit of the section extended by replicating the last trace/sample; the 2D header is well-formed and states the truth; volume-style reads raise the dimensionality error.",
+             note="2-D ZFP unit-locality validated per case; rates below 1 refused (D13 fix)",
+             technique="Coq proof over generated reader and producer + correspondence + 2-D zfpy image oracle"),
+ 'C13': dict(text="Coq theorems relative to a hand model of segyio's Line/Sequence slicing (validated against segyio thousands of times per run): for every axis (either direction, any increment) and every slice of the documented grammar the emulator's key list, as GENERATED from accessors.py, equals segyio's (same lines, same order); ordinal slices, negative ordinals, len, iteration and rejection agree; subvolume[a:b:c] selects exactly range(a,b,c) on ascending axes. Known findings D25, D24-table, D27-subvolume-descending.",
+             note="segyio represented by a validated hand model; values behind keys are C02/C04",
+             technique="Coq proof (slice.indices / range arithmetic) over generated accessor code + program-grammar differential testing against segyio"),
+})
 REASONS = {}
 DEFAULT_REASON = "not yet covered by a theorem in this development (work in progress; will be claimed when its Props file exists)"
 
